@@ -10,9 +10,11 @@ INIT = (('acct_sub', '20000'), ('create', '1'), ('create', '2'),
 def alphabet(m):
     evs = []
     for p in ('1', '2'):
-        for a in ('A', 'B'):
+        for a in ('A', 'Bq'):
             for q in (2, -3):
                 evs.append(('submit', p, a, q))
+    # orders carrying a user-chosen id that is reused from one submission to the next
+    evs += [('submit_labelled', '1', 'A', 2), ('submit_labelled', '2', 'A', -3)]
     evs += [('tick', j) for j in range(m.clock, len(bm.INSTANTS))]
     evs += [('quotes', 0), ('quotes', 1), ('quotes', 5)]      # 5: B quoted around one cent (orders worth < 0.5)
     return evs
@@ -43,7 +45,7 @@ def hours_day(ordinal):
         b.create_portfolio('p')
         b.subscribe_funds_to_portfolio('p', 5000.0)
         b.submit_order('p', Order(t0, 'A', 2, order_id='o1'))
-        b.submit_order('p', Order(t0, 'B', -3, order_id='o2'))
+        b.submit_order('p', Order(t0, 'Bq', -3, order_id='o2'))
         b.update(t)
         fills = [h for h in b.portfolios['p'].history if h.type == 'asset_transaction']
         want = 2 if bm.ref_is_open(t) else 0
@@ -63,7 +65,7 @@ def big_batch(k):
     hist = list(INIT) + [('tick', 1)]
     for i in range(k):
         for p in ('1', '2'):
-            hist += [('submit', p, 'A', 2), ('submit', p, 'A', -3), ('submit', p, 'B', 2), ('submit', p, 'B', -3)]
+            hist += [('submit', p, 'A', 2), ('submit', p, 'A', -3), ('submit', p, 'Bq', 2), ('submit', p, 'Bq', -3)]
     hist += [('tick', 2), ('tick', 3)]
     viols = []
     for cut in (len(hist) - 1, len(hist)):
